@@ -5,7 +5,10 @@
 // compared after every step; managed objects are instance-counted per universe.  ASan+UBSan+LSan
 // build, all byte strings live in exact-size non-terminated heap buffers.  Calls that std leaves
 // undefined (operator[] past the end, static-extent span with a wrong count, reset(get()),
-// calling an empty function_ref) are never generated.
+// calling an empty function_ref) are never generated.  The variant program has a second part in
+// which alternatives throw on demand from their copy / move operations: what [variant.assign],
+// [variant.ctor] and [variant.mod] guarantee about the state after the exception is judged, what
+// they leave open ("might not hold a value") is counted don't-care.
 #include "opentelemetry/nostd/function_ref.h"
 #include "opentelemetry/nostd/shared_ptr.h"
 #include "opentelemetry/nostd/span.h"
@@ -1535,6 +1538,694 @@ static int try_get_std(const SV &v, size_t which, std::string &out)
   }
 }
 
+// ==========================================================================================
+// variant, second part: operations that fail half way.  Two alternatives throw on demand (a fuse
+// armed by the program): CopyBomb from its copy operations only (move is noexcept), MoveBomb from
+// its copy and its move operations.  Both give the strong guarantee (they throw before anything
+// is changed).  The same operation runs with the same fuse on nostd::variant and on std::variant;
+// afterwards everything observable is compared.  Judged is only what the standard fixes:
+//   operator=(const variant&), other alternative, nothrow-move-constructible Tj: copy into a
+//     temporary first, so the old value is kept                        ([variant.assign]/2.5)
+//   operator=(T&&), other alternative, nothrow-move-constructible Tj: Tj(t) is built first, so
+//     the old value is kept                                            ([variant.assign]/13.3)
+//   same alternative (copy / move / converting assignment): Tj's own assignment runs, index()
+//     stays, the value is as Tj's assignment leaves it (unchanged here) ([variant.assign]/5,10,16)
+//   operator=(variant&&), other alternative, Tj's move constructor throws: "the variant will
+//     hold no value"                                                    ([variant.assign]/10)
+//   copy / move construction: the exception leaves, the source is unchanged, nothing leaks.
+// emplace, and the copy / converting assignments that are "equivalent to emplace" (Tj not
+// nothrow-move-constructible), say "the variant might not hold a value": don't-care, only
+// "valueless or still the old value" and the agreement of the observers with each other is judged.
+// ==========================================================================================
+struct Injected : std::runtime_error
+{
+  Injected() : std::runtime_error("injected failure") {}
+};
+struct Fuse
+{
+  static bool copy_armed, move_armed;
+  static void on_copy()
+  {
+    if (copy_armed)
+    {
+      copy_armed = false;
+      throw Injected();
+    }
+  }
+  static void on_move()
+  {
+    if (move_armed)
+    {
+      move_armed = false;
+      throw Injected();
+    }
+  }
+  static void disarm() { copy_armed = move_armed = false; }
+};
+bool Fuse::copy_armed = false;
+bool Fuse::move_armed = false;
+
+template <bool MoveThrows>
+struct Fragile
+{
+  int universe, id;
+  Fragile(int u, int i) : universe(u), id(i) { ++Obj::live[u]; }
+  Fragile(const Fragile &o) : universe(o.universe), id(o.id)
+  {
+    Fuse::on_copy();  // a constructor that throws has constructed nothing
+    ++Obj::live[universe];
+  }
+  Fragile(Fragile &&o) noexcept(!MoveThrows) : universe(o.universe), id(o.id)
+  {
+    if (MoveThrows)
+      Fuse::on_move();
+    ++Obj::live[universe];
+    o.id = -o.id;  // deterministic moved-from state
+  }
+  Fragile &operator=(const Fragile &o)
+  {
+    Fuse::on_copy();
+    id = o.id;
+    return *this;
+  }
+  Fragile &operator=(Fragile &&o) noexcept(!MoveThrows)
+  {
+    if (MoveThrows)
+      Fuse::on_move();
+    id   = o.id;
+    o.id = -o.id;
+    return *this;
+  }
+  ~Fragile() { --Obj::live[universe]; }
+  bool operator==(const Fragile &o) const { return id == o.id; }
+  bool operator!=(const Fragile &o) const { return id != o.id; }
+  bool operator<(const Fragile &o) const { return id < o.id; }
+  bool operator>(const Fragile &o) const { return id > o.id; }
+  bool operator<=(const Fragile &o) const { return id <= o.id; }
+  bool operator>=(const Fragile &o) const { return id >= o.id; }
+};
+typedef Fragile<false> CopyBomb;  // copy may throw, move is noexcept
+typedef Fragile<true> MoveBomb;   // copy and move may throw
+static_assert(!std::is_nothrow_copy_constructible<CopyBomb>::value && std::is_nothrow_move_constructible<CopyBomb>::value, "CopyBomb");
+static_assert(!std::is_nothrow_copy_constructible<MoveBomb>::value && !std::is_nothrow_move_constructible<MoveBomb>::value, "MoveBomb");
+
+typedef nostd::variant<int, std::string, CopyBomb, MoveBomb> NX;
+typedef std::variant<int, std::string, CopyBomb, MoveBomb> SX;
+
+struct XDescribe
+{
+  std::string operator()(int v) const { return "int:" + std::to_string(v); }
+  std::string operator()(const std::string &s) const { return "str:" + vf::show(s); }
+  std::string operator()(const CopyBomb &t) const { return "copybomb:" + std::to_string(t.id); }
+  std::string operator()(const MoveBomb &t) const { return "movebomb:" + std::to_string(t.id); }
+};
+struct XDescribe2
+{
+  template <class A, class B>
+  std::string operator()(const A &a, const B &b) const
+  {
+    return XDescribe()(a) + "|" + XDescribe()(b);
+  }
+};
+
+struct NostdApi
+{
+  typedef NX V;
+  typedef nostd::bad_variant_access bad_access;
+  template <size_t I>
+  static std::string get(const V &v)
+  {
+    return XDescribe()(nostd::get<I>(v));
+  }
+  template <class T>
+  static bool holds(const V &v)
+  {
+    return nostd::holds_alternative<T>(v);
+  }
+  template <class T>
+  static const T *get_if(const V &v)
+  {
+    return nostd::get_if<T>(&v);
+  }
+  template <size_t I>
+  static bool get_if_index(const V &v)
+  {
+    return nostd::get_if<I>(&v) != nullptr;
+  }
+  static std::string visit(const V &v) { return nostd::visit(XDescribe(), v); }
+  static std::string visit2(const V &v, const V &w) { return nostd::visit(XDescribe2(), v, w); }
+};
+struct StdApi
+{
+  typedef SX V;
+  typedef std::bad_variant_access bad_access;
+  template <size_t I>
+  static std::string get(const V &v)
+  {
+    return XDescribe()(std::get<I>(v));
+  }
+  template <class T>
+  static bool holds(const V &v)
+  {
+    return std::holds_alternative<T>(v);
+  }
+  template <class T>
+  static const T *get_if(const V &v)
+  {
+    return std::get_if<T>(&v);
+  }
+  template <size_t I>
+  static bool get_if_index(const V &v)
+  {
+    return std::get_if<I>(&v) != nullptr;
+  }
+  static std::string visit(const V &v) { return std::visit(XDescribe(), v); }
+  static std::string visit2(const V &v, const V &w) { return std::visit(XDescribe2(), v, w); }
+};
+
+template <class Api, size_t I>
+static std::string x_get(const typename Api::V &v)
+{
+  try
+  {
+    return Api::template get<I>(v);
+  }
+  catch (const typename Api::bad_access &)
+  {
+    return "bad_variant_access";
+  }
+  catch (...)
+  {
+    return "other-exception";
+  }
+}
+template <class Api>
+static std::string x_visit2(const typename Api::V &v, const typename Api::V &w)
+{
+  try
+  {
+    return Api::visit2(v, w);
+  }
+  catch (const typename Api::bad_access &)
+  {
+    return "bad_variant_access";
+  }
+  catch (...)
+  {
+    return "other-exception";
+  }
+}
+
+static std::string x_format(size_t index, bool valueless, const bool (&holds)[4], const bool (&ifs)[4], const bool (&ifs_index)[4],
+                            const std::string &through_get_if, const std::string &through_get, const std::string &visited)
+{
+  std::string s = "index=" + (index == static_cast<size_t>(-1) ? std::string("npos") : std::to_string(index));
+  s += valueless ? " valueless" : " has-value";
+  s += " holds=";
+  for (bool b : holds)
+    s += b ? '1' : '0';
+  s += " get_if<T>=";
+  for (bool b : ifs)
+    s += b ? '1' : '0';
+  s += " get_if<I>=";
+  for (bool b : ifs_index)
+    s += b ? '1' : '0';
+  s += " *get_if=" + through_get_if + " get<index()>=" + through_get + " visit=" + visited;
+  return s;
+}
+
+// everything that can be observed of one variant without provoking bad_variant_access on a variant
+// that holds a value, as text (ids are the same in both universes)
+template <class Api>
+static std::string x_observe(const typename Api::V &v)
+{
+  bool holds[4]     = {Api::template holds<int>(v), Api::template holds<std::string>(v), Api::template holds<CopyBomb>(v), Api::template holds<MoveBomb>(v)};
+  bool ifs[4]       = {Api::template get_if<int>(v) != nullptr, Api::template get_if<std::string>(v) != nullptr,
+                       Api::template get_if<CopyBomb>(v) != nullptr, Api::template get_if<MoveBomb>(v) != nullptr};
+  bool ifs_index[4] = {Api::template get_if_index<0>(v), Api::template get_if_index<1>(v), Api::template get_if_index<2>(v), Api::template get_if_index<3>(v)};
+  std::string through_get_if;
+  if (const int *p0 = Api::template get_if<int>(v))
+    through_get_if += XDescribe()(*p0);
+  if (const std::string *p1 = Api::template get_if<std::string>(v))
+    through_get_if += XDescribe()(*p1);
+  if (const CopyBomb *p2 = Api::template get_if<CopyBomb>(v))
+    through_get_if += XDescribe()(*p2);
+  if (const MoveBomb *p3 = Api::template get_if<MoveBomb>(v))
+    through_get_if += XDescribe()(*p3);
+  if (through_get_if.empty())
+    through_get_if = "none";
+  std::string through_get;
+  switch (v.index())
+  {
+    case 0:
+      through_get = x_get<Api, 0>(v);
+      break;
+    case 1:
+      through_get = x_get<Api, 1>(v);
+      break;
+    case 2:
+      through_get = x_get<Api, 2>(v);
+      break;
+    case 3:
+      through_get = x_get<Api, 3>(v);
+      break;
+    default:
+      through_get = "none";
+  }
+  std::string visited;
+  try
+  {
+    visited = Api::visit(v);
+  }
+  catch (const typename Api::bad_access &)
+  {
+    visited = "bad_variant_access";
+  }
+  catch (...)
+  {
+    visited = "other-exception";
+  }
+  return x_format(v.index(), v.valueless_by_exception(), holds, ifs, ifs_index, through_get_if, through_get, visited);
+}
+// get<I> of an alternative that is not held (any, when no value is held): bad_variant_access in both worlds
+template <class Api>
+static std::string x_get_not_held(const typename Api::V &v, size_t salt)
+{
+  size_t held = v.index(), w = held < 4 ? (held + 1 + salt % 3) % 4 : salt % 4;
+  std::string s = "get<" + std::to_string(w) + ">=";
+  switch (w)
+  {
+    case 0:
+      return s + x_get<Api, 0>(v);
+    case 1:
+      return s + x_get<Api, 1>(v);
+    case 2:
+      return s + x_get<Api, 2>(v);
+    default:
+      return s + x_get<Api, 3>(v);
+  }
+}
+// what the standard says of a variant that holds no value (written down, not computed by either type)
+static const std::string &x_valueless()
+{
+  static const bool none[4]          = {false, false, false, false};
+  static const std::string valueless = x_format(static_cast<size_t>(-1), true, none, none, none, "none", "none", "bad_variant_access");
+  return valueless;
+}
+
+template <class V>
+static unsigned rel_bits(const V &x, const V &y)
+{
+  return (x == y ? 1u : 0u) | (x != y ? 2u : 0u) | (x < y ? 4u : 0u) | (x > y ? 8u : 0u) | (x <= y ? 16u : 0u) | (x >= y ? 32u : 0u);
+}
+
+enum Mandate
+{
+  kOldValueKept,  // the operation must not have touched the target
+  kValueless,     // the target must hold no value
+  kDontCare       // "might not hold a value"
+};
+
+static uint64_t variant_throw_program(uint64_t seed)
+{
+  auto &R = vf::report();
+  Rng r(seed);
+  constexpr size_t M = 4;
+  int live0[2]       = {Obj::live[0], Obj::live[1]};
+  uint64_t h         = 11;
+  static_assert(nostd::variant_size<NX>::value == std::variant_size<SX>::value, "variant_size");
+  {
+    NX a[M];
+    SX b[M];
+    int next_id = 1;
+    size_t step = 0;  // rotates the choices that need no case split of their own
+    std::string trace;
+    const std::string &valueless = x_valueless();
+    auto xa = [&](size_t k) { return x_observe<NostdApi>(a[k]); };
+    auto xb = [&](size_t k) { return x_observe<StdApi>(b[k]); };
+    // give both variants k the same fresh value of alternative alt (nothing is armed here)
+    auto set = [&](size_t k, size_t alt) {
+      int id = next_id++;
+      switch (alt)
+      {
+        case 0:
+          a[k].emplace<0>(id);
+          b[k].emplace<0>(id);
+          break;
+        case 1:
+        {
+          std::string s = r.bytes(static_cast<size_t>(r.range(0, 30)), "ab");  // beyond SSO sometimes
+          a[k].emplace<1>(s);
+          b[k].emplace<1>(s);
+          break;
+        }
+        case 2:
+          a[k].emplace<2>(0, id);
+          b[k].emplace<2>(1, id);
+          break;
+        default:
+          a[k].emplace<3>(0, id);
+          b[k].emplace<3>(1, id);
+      }
+    };
+    // run one operation with the fuse set; 0 returned, 1 the injected exception left it, 2 something else did
+    auto run = [&](bool arm_copy, bool arm_move, auto &&fn) -> int {
+      Fuse::copy_armed = arm_copy;
+      Fuse::move_armed = arm_move;
+      int out          = 0;
+      try
+      {
+        fn();
+      }
+      catch (const Injected &)
+      {
+        out = 1;
+      }
+      catch (...)
+      {
+        out = 2;
+      }
+      Fuse::disarm();
+      return out;
+    };
+    auto counter_name = [](const std::string &family, const std::string &cls) {
+      std::string n = "var_throw_" + (family.empty() || cls.compare(0, family.size(), family) == 0 ? cls : family + "_" + cls);
+      for (char &c : n)
+        if (c == '-' || c == ':' || c == ',')
+          c = '_';
+      return n;
+    };
+    auto outcome_text = [](int t) { return std::string(t == 0 ? "returned" : (t == 1 ? "threw the injected exception" : "threw something else")); };
+    // a variant that holds no value behaves as the standard says wherever it goes next
+    auto valueless_extras = [&](size_t j) {
+      R.count("var_valueless_checked");
+      size_t k = (j + 1) % M;  // holds a value: every variant is given one before the next operation
+      bool ok  = rel_bits(a[j], a[k]) == rel_bits(b[j], b[k]) && rel_bits(a[k], a[j]) == rel_bits(b[k], b[j]) && rel_bits(a[j], a[j]) == rel_bits(b[j], b[j]);
+      VF_CHECK(ok, "var-compare", "valueless-operand", "relational operators with a valueless operand, other operand " + xb(k));
+      std::string va = x_visit2<NostdApi>(a[k], a[j]), vb = x_visit2<StdApi>(b[k], b[j]);
+      VF_CHECK(va == vb, "var-visit", "valueless-operand", "visit(f, v, valueless) gave " + va + " std " + vb);
+      NX t(a[j]);
+      SX u(b[j]);
+      std::string ot = x_observe<NostdApi>(t), ou = x_observe<StdApi>(u);
+      VF_CHECK(ot == ou, "var-valueless", "copy-construct-from-valueless", "copy of a valueless variant: " + ot + " std " + ou);
+      NX t2(a[k]);
+      SX u2(b[k]);
+      t2 = a[j];
+      u2 = b[j];
+      ot = x_observe<NostdApi>(t2);
+      ou = x_observe<StdApi>(u2);
+      VF_CHECK(ot == ou, "var-valueless", "copy-assign-from-valueless", "target " + xb(k) + " assigned a valueless variant: " + ot + " std " + ou);
+      NX t3(a[k]);
+      SX u3(b[k]);
+      t3 = std::move(t);
+      u3 = std::move(u);
+      ot = x_observe<NostdApi>(t3);
+      ou = x_observe<StdApi>(u3);
+      VF_CHECK(ot == ou, "var-valueless", "move-assign-from-valueless", "target " + xb(k) + " move-assigned a valueless variant: " + ot + " std " + ou);
+    };
+    // the target j of an assignment / emplace after the operation
+    auto judge_target = [&](const std::string &assertion, const std::string &family, const std::string &cls, bool armed, Mandate m, int ta, int tb,
+                            size_t j, const std::string &before_a, const std::string &before_b, const std::string &source) {
+      std::string na = xa(j), sb = xb(j);
+      if (armed)
+      {
+        // one get<I> of an alternative that is not held, after every operation that failed (I rotates
+        // with the step): bad_variant_access whatever the state is
+        std::string ng = x_get_not_held<NostdApi>(a[j], step), sg = x_get_not_held<StdApi>(b[j], step);
+        static const std::string bad = "=bad_variant_access";
+        bool n_ok = ng.size() > bad.size() && ng.compare(ng.size() - bad.size(), bad.size(), bad) == 0;
+        bool s_ok = sg.size() > bad.size() && sg.compare(sg.size() - bad.size(), bad.size(), bad) == 0;
+        if (s_ok && !n_ok)
+          R.violation("var-get-throws", "after-exception:other-alternative", "after " + trace + ": " + family + ": " + ng + " on " + na + ", std " + sg);
+      }
+      std::string wit = "after " + trace + ": " + family + (armed ? " with the fuse armed" : " (nothing armed)") + ", target was " + before_b + ", source " + source +
+                        ": nostd " + outcome_text(ta) + ", target now " + na + "; std " + outcome_text(tb) + ", target now " + sb;
+      if (!armed)
+      {
+        R.count("var_throw_unarmed_ops");
+        if (ta != 0 || tb != 0)
+          R.violation("var-throw-propagates", "nothing-armed:" + cls, wit);
+        else if (na != sb)
+          R.violation("var-index-value", family + ":" + cls, wit);
+      }
+      else
+      {
+        R.count("var_throw_ops");
+        R.count(counter_name(family == "convert-assign" ? "" : family, cls));
+        if (tb != 1)
+          R.count("var_throw_oracle_off_standard");  // std::variant did not let the exception out: no reference, no verdict
+        else
+        {
+          if (ta != tb)
+            R.violation("var-throw-propagates", cls, wit);
+          if (m == kDontCare)
+          {
+            R.count("var_throw_dontcare");
+            if (na == sb)
+              R.count("var_throw_dontcare_same_as_std");
+            if (na != before_a && na != valueless)
+              R.violation(assertion, cls + ",neither-old-value-nor-valueless", wit);
+          }
+          else if (sb != (m == kValueless ? valueless : before_b))
+            R.count("var_throw_oracle_off_standard");  // libstdc++ itself is not where the standard puts it: not judged
+          else
+          {
+            R.count(m == kValueless ? "var_throw_judged_valueless" : "var_throw_judged_old_value_kept");
+            if (na != sb)
+              R.violation(assertion, cls, wit);
+          }
+          if (R.want_sample(8))
+          {
+            static int sampled = 0;
+            if (sampled++ < 1)
+              R.sample("variant exception step: " + wit, 8);
+          }
+        }
+      }
+      if (na == valueless && sb == valueless && (step & 3) == 0)
+        valueless_extras(j);
+      if (na != sb || sb == valueless)
+      {
+        // go on from a state both sides agree on (and that holds a value)
+        int id = next_id++;
+        a[j].emplace<0>(id);
+        b[j].emplace<0>(id);
+      }
+    };
+    // the source i of a copy / move: same in both worlds, and untouched when the operation threw
+    auto judge_source = [&](const std::string &assertion, const std::string &family, const std::string &cls, int ta, int tb, size_t i,
+                            const std::string &before_a) {
+      std::string na = xa(i), sb = xb(i);
+      if (na != sb || (tb == 1 && na != before_a))
+      {
+        if (ta == tb)  // otherwise reported already: the two operations went different ways
+          R.violation(assertion, cls + ",source", "after " + trace + ": " + family + ": source was " + before_a + ", now " + na + ", std " + sb);
+        int id = next_id++;
+        a[i].emplace<0>(id);
+        b[i].emplace<0>(id);
+      }
+    };
+    auto live_check = [&](const std::string &when) {
+      int d0 = Obj::live[0] - live0[0], d1 = Obj::live[1] - live0[1];
+      if (d0 != d1)
+      {
+        R.violation("var-live-count", when + (d0 > d1 ? ":alternative-not-destroyed" : ":alternative-destroyed-twice-or-early"),
+                    "after " + trace + ": live alternatives " + std::to_string(d0) + " std " + std::to_string(d1));
+        live0[0] = Obj::live[0] - d1;
+      }
+    };
+    static const char *const type_class[4] = {"", "", "copy-throws-move-noexcept", "copy-throws-move-throws"};
+
+    for (size_t k = 0; k < M; ++k)
+      set(k, static_cast<size_t>(r.below(4)));
+    size_t nops = static_cast<size_t>(r.range(3, 10));
+    for (size_t op = 0; op < nops; ++op)
+    {
+      size_t i = static_cast<size_t>(r.below(M)), j = static_cast<size_t>(r.below(M));
+      if (i == j)
+        j = (j + 1) % M;
+      unsigned kind = static_cast<unsigned>(r.below(100));
+      bool armed    = r.chance(3, 4);
+      step          = static_cast<size_t>(r.below(12));
+      size_t typ    = r.coin() ? 2 : 3;  // the alternative that travels
+      bool same     = r.chance(1, 3);    // the target holds that alternative already
+      if (kind >= 70)
+        typ = 3;  // move assignment / move construction: only MoveBomb's move can fail
+      h = vf::mix(h, (((kind * 2 + armed) * 4 + typ) * 2 + same) * 16 + i * 4 + j);
+      // bring the target into the wanted relation to the travelling alternative
+      auto prepare_target = [&]() {
+        if (same)
+        {
+          if (b[j].index() != typ)
+            set(j, typ);
+        }
+        else if (b[j].index() == typ)
+        {
+          size_t other = static_cast<size_t>(r.below(3));
+          set(j, other >= typ ? other + 1 : other);
+        }
+      };
+      std::string rel = same ? "same-alternative" : "different-alternative";
+      std::string opn, when = armed ? "after-exception" : "no-exception";
+      if (kind < 28)
+      {
+        // ---- a[j] = a[i], variant to variant
+        opn = "copy-assign";
+        if (b[i].index() != typ)
+          set(i, typ);
+        prepare_target();
+        std::string cls = std::string(type_class[typ]) + ":" + rel;
+        std::string before_a = xa(j), before_b = xb(j), src_a = xa(i);
+        int ta = run(armed, false, [&] {
+          const NX &src = a[i];
+          a[j]          = src;
+        });
+        int tb = run(armed, false, [&] {
+          const SX &src = b[i];
+          b[j]          = src;
+        });
+        // other alternative and Tj not nothrow-move-constructible: "equivalent to emplace<j>(get<j>(rhs))"
+        Mandate m = (typ == 3 && !same) ? kDontCare : kOldValueKept;
+        judge_target("var-assign-throws", "copy-assign", cls, armed, m, ta, tb, j, before_a, before_b, src_a);
+        judge_source("var-assign-throws", "copy-assign", cls, ta, tb, i, src_a);
+      }
+      else if (kind < 44)
+      {
+        // ---- a[j] = lvalue of the alternative (converting assignment, has to copy)
+        opn = "convert-assign";
+        prepare_target();
+        std::string cls = std::string("convert-") + type_class[typ] + ":" + rel;
+        std::string before_a = xa(j), before_b = xb(j);
+        int id = next_id++, ta, tb;
+        if (typ == 2)
+        {
+          const CopyBomb c0(0, id), c1(1, id);
+          ta = run(armed, false, [&] { a[j] = c0; });
+          tb = run(armed, false, [&] { b[j] = c1; });
+        }
+        else
+        {
+          const MoveBomb c0(0, id), c1(1, id);
+          ta = run(armed, false, [&] { a[j] = c0; });
+          tb = run(armed, false, [&] { b[j] = c1; });
+        }
+        Mandate m = (typ == 3 && !same) ? kDontCare : kOldValueKept;  // as above: "equivalent to emplace<j>(t)"
+        judge_target("var-assign-throws", "convert-assign", cls, armed, m, ta, tb, j, before_a, before_b, "a " + std::string(typ == 2 ? "CopyBomb" : "MoveBomb") + " lvalue");
+      }
+      else if (kind < 58)
+      {
+        // ---- emplace from an lvalue: the standard leaves the state after a failed initialisation open
+        opn = "emplace";
+        prepare_target();
+        std::string cls = std::string(type_class[typ]) + ":" + rel;
+        std::string before_a = xa(j), before_b = xb(j);
+        int id = next_id++, ta, tb;
+        bool by_type = r.coin();
+        if (typ == 2)
+        {
+          const CopyBomb c0(0, id), c1(1, id);
+          ta = run(armed, false, [&] { by_type ? a[j].emplace<CopyBomb>(c0) : a[j].emplace<2>(c0); });
+          tb = run(armed, false, [&] { by_type ? b[j].emplace<CopyBomb>(c1) : b[j].emplace<2>(c1); });
+        }
+        else
+        {
+          const MoveBomb c0(0, id), c1(1, id);
+          ta = run(armed, false, [&] { by_type ? a[j].emplace<MoveBomb>(c0) : a[j].emplace<3>(c0); });
+          tb = run(armed, false, [&] { by_type ? b[j].emplace<MoveBomb>(c1) : b[j].emplace<3>(c1); });
+        }
+        judge_target("var-emplace-throws", "emplace", cls, armed, kDontCare, ta, tb, j, before_a, before_b, "an lvalue");
+      }
+      else if (kind < 70)
+      {
+        // ---- copy construction: no object, no change, no leak
+        opn = "copy-construct";
+        if (b[i].index() != typ)
+          set(i, typ);
+        std::string cls = std::string("copy-construct:") + type_class[typ];
+        std::string src_a = xa(i), ot, ou;
+        int ta = run(armed, false, [&] {
+          NX t(a[i]);
+          ot = x_observe<NostdApi>(t);
+        });
+        int tb = run(armed, false, [&] {
+          SX u(b[i]);
+          ou = x_observe<StdApi>(u);
+        });
+        R.count(armed ? "var_throw_ops" : "var_throw_unarmed_ops");
+        if (armed)
+          R.count(counter_name("", cls));
+        if (armed && tb != 1)
+          R.count("var_throw_oracle_off_standard");
+        else if (ta != tb)
+          R.violation("var-throw-propagates", cls, "after " + trace + ": copy construction from " + src_a + ": nostd " + outcome_text(ta) + ", std " + outcome_text(tb));
+        else if (!armed && (ot != ou || ot != src_a))
+          R.violation("var-index-value", cls, "copy of " + src_a + " is " + ot + ", std " + ou);
+        judge_source("var-construct-throws", "copy-construct", cls, ta, tb, i, src_a);
+      }
+      else if (kind < 90)
+      {
+        // ---- a[j] = std::move(a[i]) with a move constructor / move assignment that throws
+        opn = "move-assign";
+        if (b[i].index() != typ)
+          set(i, typ);
+        prepare_target();
+        std::string cls = "move-throws:" + rel;
+        std::string before_a = xa(j), before_b = xb(j), src_a = xa(i);
+        int ta = run(false, armed, [&] { a[j] = std::move(a[i]); });
+        int tb = run(false, armed, [&] { b[j] = std::move(b[i]); });
+        judge_target("var-assign-throws", "move-assign", cls, armed, same ? kOldValueKept : kValueless, ta, tb, j, before_a, before_b, src_a);
+        judge_source("var-assign-throws", "move-assign", cls, ta, tb, i, src_a);
+      }
+      else
+      {
+        // ---- move construction that throws
+        opn = "move-construct";
+        if (b[i].index() != typ)
+          set(i, typ);
+        std::string cls = "move-construct:move-throws";
+        std::string src_a = xa(i), ot, ou;
+        int ta = run(false, armed, [&] {
+          NX t(std::move(a[i]));
+          ot = x_observe<NostdApi>(t);
+        });
+        int tb = run(false, armed, [&] {
+          SX u(std::move(b[i]));
+          ou = x_observe<StdApi>(u);
+        });
+        R.count(armed ? "var_throw_ops" : "var_throw_unarmed_ops");
+        if (armed)
+          R.count(counter_name("", cls));
+        if (armed && tb != 1)
+          R.count("var_throw_oracle_off_standard");
+        else if (ta != tb)
+          R.violation("var-throw-propagates", cls, "after " + trace + ": move construction from " + src_a + ": nostd " + outcome_text(ta) + ", std " + outcome_text(tb));
+        else if (!armed && (ot != ou || ot != src_a))
+          R.violation("var-index-value", cls, "variant move-constructed from " + src_a + " is " + ot + ", std " + ou);
+        judge_source("var-construct-throws", "move-construct", cls, ta, tb, i, src_a);
+      }
+      if (trace.size() > 160)
+        trace = "..." + trace.substr(trace.size() - 120);
+      trace += opn + (armed ? "!" : "") + "(" + std::to_string(i) + "," + std::to_string(j) + ") ";
+      live_check(when);
+    }
+    // every variant once more, whether or not an operation touched it last
+    for (size_t k = 0; k < M; ++k)
+    {
+      std::string na = xa(k), sb = xb(k);
+      VF_CHECK(na == sb, "var-index-value", "exception-part:final-state", "after " + trace + ": variant " + std::to_string(k) + " is " + na + ", std " + sb);
+    }
+  }
+  if (Obj::live[0] != live0[0] || Obj::live[1] != live0[1])
+  {
+    R.violation("var-live-count",
+                std::string("exception-part-scope-exit:") + (Obj::live[0] - live0[0] > Obj::live[1] - live0[1] ? "alternative-not-destroyed" : "alternative-destroyed-twice-or-early"),
+                "at scope exit: alternatives left alive: " + std::to_string(Obj::live[0] - live0[0]) + " std " + std::to_string(Obj::live[1] - live0[1]));
+    Obj::live[0] = live0[0];
+    Obj::live[1] = live0[1];
+  }
+  return h;
+}
+
 static void variant_program(uint64_t seed)
 {
   auto &R = vf::report();
@@ -1543,10 +2234,10 @@ static void variant_program(uint64_t seed)
   int live0[2]       = {Obj::live[0], Obj::live[1]};
   static_assert(nostd::variant_size<NV>::value == std::variant_size<SV>::value, "variant_size");
   static_assert(std::is_same<nostd::variant_alternative_t<2, NV>, std::variant_alternative_t<2, SV>>::value, "variant_alternative");
+  uint64_t h = 7;
   {
     NV a[N];
     SV b[N];
-    uint64_t h = 7;
     std::string trace;
     auto check = [&](const std::string &op) {
       for (size_t i = 0; i < N; ++i)
@@ -1745,7 +2436,6 @@ static void variant_program(uint64_t seed)
       trace += opn + "(" + std::to_string(i) + "," + std::to_string(j) + ") ";
       check(opn);
     }
-    R.nontrivial(vf::mix(h, 6));
   }
   if (Obj::live[0] != live0[0] || Obj::live[1] != live0[1])
   {
@@ -1753,6 +2443,9 @@ static void variant_program(uint64_t seed)
                 "at scope exit: alternatives left alive: " + std::to_string(Obj::live[0] - live0[0]) + " std " + std::to_string(Obj::live[1] - live0[1]));
     Obj::live[0] = Obj::live[1] = 0;
   }
+  // second part: operations that fail half way (own random stream, the one above is unchanged)
+  h = vf::mix(h, variant_throw_program(vf::mix(seed, 0x7420)));
+  R.nontrivial(vf::mix(h, 6));
 }
 
 int main(int argc, char **argv)
